@@ -52,19 +52,53 @@ struct Tagged {
   int tag;
 };
 
-// Start gate. Helper threads are spawned first and park at model level (a parked thread is not
-// schedulable, so the set-up that follows is explored with a single runnable harness thread);
-// T0 waits until all of them are parked, builds the objects, then opens the gate.
+// Every thread's first use of a small-buffer size class fills its thread-local cache (several hundred
+// stores). Doing that up front, while no other thread is schedulable, keeps those steps out of the part of
+// the execution where they would each be a preemption point.
+inline void warm_small_buffers() {
+  dispenso::deallocSmallBuffer<32>(dispenso::allocSmallBuffer<32>());
+  dispenso::deallocSmallBuffer<64>(dispenso::allocSmallBuffer<64>());
+  dispenso::deallocSmallBuffer<128>(dispenso::allocSmallBuffer<128>());
+}
+
+// Start / exit gate for helper threads.
+//  * start: helpers are started one at a time; each warms its caches and parks at model level (a parked
+//    thread is not schedulable, so the set-up that follows is explored with a single runnable harness thread);
+//    T0 builds the objects, then opens the gate.
+//  * exit: a thread that used the small-buffer allocator returns its cache to the central store from a
+//    thread-local destructor (~1000 atomic operations). Helpers therefore stay parked after their work and
+//    are let go one at a time by finish(), when nothing else is running, instead of interleaving that
+//    bookkeeping with the operations under test.
 struct Gate {
-  mc::Shared<int> parked{0}, open_{0};
-  void park() {
-    parked.add(1);
-    mc::block_until([&] { return open_.get() != 0; });
-  }
-  void wait_parked(int n) {
-    mc::block_until([&] { return parked.get() >= n; });
+  mc::Shared<int> parked{0}, open_{0}, done{0}, exit_turn{0};
+  int started = 0;
+  template <class F>
+  void spawn(F f) {
+    int want = ++started;
+    mc::spawn([this, f, want]() mutable {
+      warm_small_buffers();
+      parked.add(1);
+      mc::block_until([&] { return open_.get() != 0; });
+      f();
+      done.add(1);
+      mc::block_until([&] { return exit_turn.get() >= want; });
+    });
+    mc::block_until([&] { return parked.get() >= want; });
   }
   void open() { open_.set(1); }
+  // wait until every helper has finished its work (a helper that cannot is reported as a deadlock)
+  void wait_done() {
+    mc::block_until([&] { return done.get() >= started; });
+  }
+  // let the helpers exit one after the other (mc::join_all() afterwards)
+  void finish() {
+    wait_done();
+    for (int i = 1; i <= started; i++) {
+      int live = mc_live_threads();
+      exit_turn.set(i);
+      mc::block_until([&] { return mc_live_threads() < live; });
+    }
+  }
 };
 
 // set around every timed wait of the calling thread; the functors look at it
@@ -256,6 +290,7 @@ void fget_impl(const mc::Params& P) {
   bool deferred = (pol & 2) != 0;
   GetCtx c;
   c.creator = mc_self_id();
+  warm_small_buffers();
   auto mk = [&c] { return [&c]() -> R { return K::produce(c); }; }; // Future takes the functor by rvalue only
   {
     std::unique_ptr<dispenso::ThreadPool> pool;
@@ -264,24 +299,19 @@ void fget_impl(const mc::Params& P) {
     ManualInvoker manual;
     Fut orig, forc;
     Gate gate;
-    int helpers = (pb != "-") + (pc != "-") + (sched == "man");
     // B, C and the manual completer exist before the pool does, parked at model level: the pool's
     // start-up is then explored with one runnable harness thread instead of three.
-    if (pb != "-") mc::spawn([&] {
-      gate.park();
+    if (pb != "-") gate.spawn([&] {
       Fut mine(orig); // B copies the handle A is using
       get_program<K>(c, mine, orig, pb, deferred);
     });
-    if (pc != "-") mc::spawn([&] {
-      gate.park();
+    if (pc != "-") gate.spawn([&] {
       Fut mine(std::move(forc)); // C owns a copy that T0 made before releasing it
       get_program<K>(c, mine, orig, pc, deferred);
     });
-    if (sched == "man") mc::spawn([&] {
-      gate.park();
+    if (sched == "man") gate.spawn([&] {
       manual.run(); // the completer: exactly one OnceFunction call
     });
-    gate.wait_parked(helpers);
     if (sched == "pool" || sched == "ts" || sched == "cts") pool.reset(new dispenso::ThreadPool((size_t)n));
     // park=1: a quiet period first. A timed sleep expires only when nothing else can run, i.e. when every
     // worker is parked in its futex wait; the future is then handed to a sleeping pool (placed path: claim a
@@ -317,7 +347,7 @@ void fget_impl(const mc::Params& P) {
         if (strchr("gwzur", op)) prog.push_back(op); // A never mutates the handle B copies from
       get_program<K>(c, mine, orig, prog, deferred);
     }
-    mc::join_all();
+    gate.wait_done();
     if (ts) {
       ts->wait();
       MC_CHECK(orig.is_ready(), "TaskSet::wait() returned but the future scheduled on it is not ready");
@@ -340,6 +370,8 @@ void fget_impl(const mc::Params& P) {
     mc::cover(rn == c.creator ? "ran_on_T0" : "ran_elsewhere");
     mc::observe("runner", rn);
     mc::observe("gets", c.gets.get());
+    gate.finish();
+    mc::join_all();
   }
 }
 
@@ -451,6 +483,7 @@ void fthen_impl(const mc::Params& P) {
   long n = P("n", 1), nb = P("b", 1), nc = P("c", 0);
   std::string use = P.s("use", "b");
   bool chain = P("chain", 0) != 0;
+  warm_small_buffers();
   ThenCtx c;
   c.ante_throws = P.s("akind", "val") == "thr";
   ThenEnv env;
@@ -465,9 +498,7 @@ void fthen_impl(const mc::Params& P) {
     std::vector<dispenso::Future<int>> held; // then-futures, destroyed before the schedulables
     held.reserve(8);
     mc::Shared<int> regs_done{0};
-    int helpers = (nc > 0) + (comp == "man");
-    if (nc > 0) mc::spawn([&] {
-      gate.park();
+    if (nc > 0) gate.spawn([&] {
       dispenso::Future<int> mine(ante);
       std::vector<dispenso::Future<int>> my;
       my.reserve(2);
@@ -478,11 +509,9 @@ void fthen_impl(const mc::Params& P) {
       for (int k = 0; k < nc; k++) use_then_future(c, my[k], 4 + k, use[0], deferred);
       regs_done.add(1);
     });
-    if (comp == "man") mc::spawn([&] {
-      gate.park();
+    if (comp == "man") gate.spawn([&] {
       manual.run();
     });
-    gate.wait_parked(helpers);
     bool need_pool = comp == "pool" || env.tsched == "pool" || env.tsched == "ts" || env.tsched == "cts";
     if (need_pool) {
       env.pool.reset(new dispenso::ThreadPool((size_t)n));
@@ -519,7 +548,7 @@ void fthen_impl(const mc::Params& P) {
     }
     for (int k = 0; k < nb; k++) use_then_future(c, held[(size_t)k], k, use[0], deferred);
     if (chain && nb > 0) use_then_future(c, held[(size_t)nb], 2, use[0], deferred);
-    mc::join_all();
+    gate.wait_done();
     if (env.cts) {
       env.cts->wait();
       mc::cover("taskset_wait");
@@ -548,6 +577,8 @@ void fthen_impl(const mc::Params& P) {
     }
     MC_CHECK(ante.impl_->thenChain_.a_.load(std::memory_order_relaxed) == nullptr, "then-chain not empty at quiescence");
     mc::observe("conts", total);
+    gate.finish();
+    mc::join_all();
   }
 }
 
@@ -639,6 +670,7 @@ void fwhen_run(const mc::Params& P, WhenCtx& c, Make make, Check check) {
   long n = P("n", 1);
   bool split = P("split", 0) != 0, obs = P("obs", 0) != 0, strict = P("strict", 0) != 0;
   c.k = (int)in.size();
+  warm_small_buffers();
   std::vector<int> order;
   for (char ch : ord) order.push_back(ch - '0');
   if (order.empty())
@@ -651,32 +683,25 @@ void fwhen_run(const mc::Params& P, WhenCtx& c, Make make, Check check) {
     VecFI inputs;
     inputs.reserve(4);
     Res res, res_obs;
-    int helpers = 0;
     if (split) {
       for (int i : order) {
-        helpers++;
-        mc::spawn([&, i] {
-          gate.park();
+        gate.spawn([&, i] {
           manual[i].run();
         });
       }
     } else if (!order.empty()) {
-      helpers++;
-      mc::spawn([&] {
-        gate.park();
+      gate.spawn([&] {
         for (int i : order) manual[i].run();
       });
     }
-    mc::Shared<int> obs_go{0};
-    if (obs) mc::spawn([&] {
-      mc::block_until([&] { return obs_go.get() != 0; });
+    Gate ogate;
+    if (obs) ogate.spawn([&] {
       if (res_obs.is_ready()) {
         check(res_obs, "observer");
         mc::cover("observer_saw_ready");
       }
       res_obs = Res();
     });
-    gate.wait_parked(helpers);
     bool need_pool = set != "none" || in.find('p') != std::string::npos;
     if (need_pool) {
       env.pool.reset(new dispenso::ThreadPool((size_t)n));
@@ -712,7 +737,7 @@ void fwhen_run(const mc::Params& P, WhenCtx& c, Make make, Check check) {
     MC_CHECK(res.valid(), "the combinator returned an invalid future");
     if (obs) {
       res_obs = res;
-      obs_go.set(1);
+      ogate.open();
     }
     if (!early) gate.open();
     if (use == "w" && env.ts) {
@@ -728,7 +753,8 @@ void fwhen_run(const mc::Params& P, WhenCtx& c, Make make, Check check) {
       mc::cover("delivered_by_callbacks");
     }
     check(res, "T0");
-    mc::join_all();
+    gate.wait_done();
+    ogate.wait_done();
     for (int i = 0; i < c.k; i++) inputs[(size_t)i].wait(); // losers of when_any complete too
     if (env.ts) env.ts->wait();
     if (env.cts) env.cts->wait();
@@ -747,6 +773,9 @@ void fwhen_run(const mc::Params& P, WhenCtx& c, Make make, Check check) {
       mc::observe("refcount", rc);
       if (strict) MC_CHECK(false, "combinator result: reference count %d at quiescence with exactly one live handle (its state is never freed)", rc);
     }
+    gate.finish();
+    ogate.finish();
+    mc::join_all();
   }
 }
 
@@ -997,6 +1026,7 @@ void fut_timed_impl(const mc::Params& P) {
   bool w2 = P("w2", 0) != 0;
   bool deferred = (pol & 2) != 0;
   TimedCtx c;
+  warm_small_buffers();
   c.nwaiters = w2 ? 2 : 1;
   c.hold = when == "blocked";
   {
@@ -1004,19 +1034,14 @@ void fut_timed_impl(const mc::Params& P) {
     ManualInvoker manual;
     Gate gate;
     dispenso::Future<int> f;
-    int helpers = 0;
     if (sched == "man") {
-      helpers++;
-      mc::spawn([&] {
-        gate.park();
+      gate.spawn([&] {
         if (when == "never") mc::block_until([&] { return c.waiters_done.get() >= c.nwaiters; });
         manual.run();
       });
     }
     if (w2) {
-      helpers++;
-      mc::spawn([&] {
-        gate.park();
+      gate.spawn([&] {
         dispenso::Future<int> mine(f);
         if (when == "ready") mc::block_until([&] { return status_of(mine) == 2; });
         if (when == "blocked") mc::block_until([&] { return c.started.get() == 1; });
@@ -1024,7 +1049,6 @@ void fut_timed_impl(const mc::Params& P) {
         c.waiters_done.add(1);
       });
     }
-    gate.wait_parked(helpers);
     if (sched == "pool") {
       pool.reset(new dispenso::ThreadPool((size_t)n));
       if (n > 0 && P("park", 1)) usleep(50000);
@@ -1055,12 +1079,14 @@ void fut_timed_impl(const mc::Params& P) {
     if (when == "blocked") mc::block_until([&] { return c.started.get() == 1; });
     timed_wait_future(c, f, api, d, deferred);
     c.waiters_done.add(1);
-    mc::join_all();
+    gate.wait_done();
     f.wait();
     pool.reset();
     if (sched == "nt") drain_new_threads();
     MC_CHECK(c.calls.get() == 1, "the functor ran %d times", c.calls.get());
     MC_CHECK(refs_of(f) == 1, "reference count %d at quiescence with one live handle", refs_of(f));
+    gate.finish();
+    mc::join_all();
   }
 }
 } // namespace
